@@ -83,6 +83,16 @@ meta("C01",
                  "name; exactly one exchange; result returned unchanged), the trusted wire, _marshaled_dispatch (registered "
                  "callable called exactly once with the params; reply carries the translated result and the id).",
      trusted_base=_CLIENT_TB + _DISP_TB,
+     # the whole wire path counts for C01: every clause of these functions carries a piece of the transparency
+     include=["jsonrpclib.jsonrpc.JSONTarget.__init__", "jsonrpclib.jsonrpc.JSONTarget.feed", "jsonrpclib.jsonrpc.JSONTarget.close",
+              "jsonrpclib.jsonrpc.JSONParser.__init__", "jsonrpclib.jsonrpc.JSONParser.feed",
+              "jsonrpclib.jsonrpc.TransportMixIn.getparser", "jsonrpclib.jsonrpc.TransportMixIn.send_content",
+              "jsonrpclib.jsonrpc.TransportMixIn.single_request", "jsonrpclib.jsonrpc.TransportMixIn.send_request",
+              "jsonrpclib.utils.to_bytes", "jsonrpclib.utils.from_bytes",
+              "jsonrpclib.jsonrpc.loads", "jsonrpclib.jsonrpc.load", "jsonrpclib.jsonrpc.dump", "jsonrpclib.jsonrpc.check_for_errors",
+              "jsonrpclib.SimpleJSONRPCServer.SimpleJSONRPCRequestHandler.do_POST",
+              "jsonrpclib.SimpleJSONRPCServer.SimpleJSONRPCDispatcher._marshaled_dispatch",
+              "jsonrpclib.SimpleJSONRPCServer.SimpleJSONRPCDispatcher._unmarshaled_dispatch"],
      assumptions=["sockets / http deliver bytes faithfully", "loads(dumps(x)) == N(x): trusted JSON round trip, exercised by the bounded stand-in"],
      not_decided=["MultiCall result ordering is covered through the server's batch invariant (C03) and a bounded stand-in only"])
 meta("C07",
